@@ -34,7 +34,14 @@ def body(run):
                 for k in a:
                     if isinstance(a[k], str):
                         continue
-                    if not (abs(float(a[k]) - float(b[k])) <= 1e-12 * (1 + abs(float(b[k]))) or (math.isnan(float(a[k])) and math.isnan(float(b[k])))):
+                    # (accumulation order changes sums in the last bits; the standard deviation is the square root of a difference of such
+                    # sums, so it is compared through its square, on the scale of the mean square)
+                    if k == 'std':
+                        scale = 1 + float(b['mean']) ** 2 + float(b['std']) ** 2
+                        same = abs(float(a[k]) ** 2 - float(b[k]) ** 2) <= 1e-11 * scale
+                    else:
+                        same = abs(float(a[k]) - float(b[k])) <= 1e-12 * (1 + abs(float(b[k])))
+                    if not (same or (math.isnan(float(a[k])) and math.isnan(float(b[k])))):
                         run.add_violation('parameter statistics depend on the thread count', desc, observed=dict(multi=a, single=b),
                                           signature=dict(kind='param-threads'))
         cases.append(st.encode_param(res))
